@@ -2,6 +2,7 @@ package main
 
 import (
 	"fmt"
+	"go/ast"
 	"go/token"
 	"go/types"
 	"sort"
@@ -572,6 +573,71 @@ func c01GuardDominance(c *Ctx, r *Report, scope []*ssa.Function) {
 		}
 	}
 	r.ok("C01-scope", "callbacks", "", "scope = functions reachable from the entry points following every edge inside the module and, from outside the module, only edges into methods (sort.Interface, fmt.Stringer/error, io.Writer of the hash); no closure is handed to code outside the module")
+	// File.msgAdder is nil until File.init succeeded: the container router may be reached only after that.
+	// (a) decode calls decodeFileData only on init's error-free edge; (b) parseFileIdMsg (which runs before init)
+	// adds only a value that passed the comma-ok assertion to FileIdMsg, which File.add routes without msgAdder.
+	if fn := c.ssaFn(c.fn(c.fit, "decoder.decode")); fn != nil {
+		var initCall *ssa.Call
+		var dfd ssa.CallInstruction
+		for _, ci := range allCalls(fn) {
+			if f := ci.Common().StaticCallee(); f != nil {
+				if f.Name() == "init" && strings.HasSuffix(f.String(), ".File).init") {
+					initCall, _ = ci.(*ssa.Call)
+				}
+				if f.Name() == "decodeFileData" {
+					dfd = ci
+				}
+			}
+		}
+		ok := initCall != nil && dfd != nil && c.errNilDominates(fn, initCall, dfd.Block())
+		r.check(ok, "C01-R2-msgadder-nonnil", "decode/init-before-records", c.pos(fn.Pos()), "records are parsed only after File.init succeeded (msgAdder installed)", "decodeFileData can run without a successful File.init: File.add would invoke a nil msgAdder")
+	}
+	if fn := c.ssaFn(c.fn(c.fit, "decoder.parseFileIdMsg")); fn != nil {
+		ok, n := true, 0
+		for _, ci := range allCalls(fn) {
+			f := ci.Common().StaticCallee()
+			if f == nil || !strings.HasSuffix(f.String(), ".File).add") {
+				continue
+			}
+			n++
+			guarded := false
+			for _, a := range fn.Blocks {
+				if len(a.Instrs) == 0 {
+					continue
+				}
+				ifi, isIf := a.Instrs[len(a.Instrs)-1].(*ssa.If)
+				if !isIf {
+					continue
+				}
+				ex, isEx := ifi.Cond.(*ssa.Extract)
+				if !isEx || ex.Index != 1 {
+					continue
+				}
+				ta, isTA := ex.Tuple.(*ssa.TypeAssert)
+				if !isTA || !ta.CommaOk || !strings.HasSuffix(ta.AssertedType.String(), ".FileIdMsg") {
+					continue
+				}
+				if len(a.Succs[0].Preds) == 1 && a.Succs[0].Dominates(ci.Block()) {
+					guarded = true
+				}
+			}
+			if !guarded {
+				ok = false
+			}
+		}
+		r.check(ok && n == 1, "C01-R2-msgadder-nonnil", "parseFileIdMsg/only-file_id-before-init", c.pos(fn.Pos()), "before File.init only a FileIdMsg is added, which File.add stores without touching msgAdder", "parseFileIdMsg can add a message that is not a FileIdMsg before File.init has installed msgAdder: nil interface call")
+	}
+	if fd := c.decl(c.fn(c.fit, "File.add")); fd != nil {
+		// the FileIdMsg arm exists (so the early add never reaches the default arm)
+		has := false
+		ast.Inspect(fd.Body, func(n ast.Node) bool {
+			if cc, ok := n.(*ast.CaseClause); ok && len(cc.List) == 1 && exprStr(cc.List[0]) == "FileIdMsg" {
+				has = true
+			}
+			return true
+		})
+		r.check(has, "C01-R2-msgadder-nonnil", "File.add/file_id-arm", c.pos(fd.Pos()), "File.add has its own arm for FileIdMsg", "File.add has no arm for FileIdMsg: the early add falls to the nil msgAdder")
+	}
 	// logger is used only under d.debug, and d.debug is set only when the logger is non-nil
 	nLog := 0
 	for _, fn := range scope {
